@@ -120,6 +120,14 @@ pub fn fill_script(f: Fill, c: u32, l: u32) -> Vec<Op> {
                 s.push(cup(1, 0));
                 s.push(Op::Draw("n".into()));
             }
+            // emoji presentation sequence (narrow base + U+FE0F in one cell) followed by text
+            if c >= 4 && l >= 3 {
+                s.push(cup(2, 0));
+                s.push(Op::Draw("\u{263a}\u{fe0f}v".into()));
+            } else if c >= 3 && l >= 2 {
+                s.push(cup(l - 1, 0));
+                s.push(Op::Draw("\u{263a}\u{fe0f}".into()));
+            }
             // combining sequence
             if c >= 3 {
                 s.push(cup(0, c - 1));
